@@ -18,11 +18,14 @@ VERIF = os.path.dirname(os.path.dirname(os.path.abspath(__file__)))
 SEEDED = os.path.join(VERIF, 'seeded')
 
 # seeds that are caught by the check of a neighbouring property (the observable they break belongs to that check's harness)
-OTHER_CHECK = {'C02-e': ['C03'], 'C03-d': ['C11'], 'C03-g': ['C11'], 'C04-g': ['C10'], 'C10-h': ['C01'], 'C17-h': ['C08'], 'C19-h': ['C02'], 'C14-j': ['C13'], 'C15-l': ['C09'], 'C04-n': ['C03']}
+OTHER_CHECK = {'C02-e': ['C03'], 'C03-d': ['C11'], 'C03-g': ['C11'], 'C04-g': ['C10'], 'C10-h': ['C01'], 'C17-h': ['C08'], 'C19-h': ['C02'], 'C14-j': ['C13'], 'C15-l': ['C09'], 'C04-n': ['C03'], 'C04-r': ['C02'], 'C04-s': ['C02']}
 # seeds no check can reach, with the reason (also in DESIGN.md 8.5)
 OUT_OF_REACH = {
     'C07-e': 'needs a second thread removing a registration between two plain statements of remove_header_callback; the property quantifies over '
              'operations performed from inside callbacks during dispatch, and the scheduler engine only switches at synchronisation points',
+    'C07-s': 'add/remove_header_callback publish a changed copy of the table: needs a second thread completing its own add/remove between the copy '
+             'and the store of the first (two plain statements); same reason as C07-e - the property quantifies over changes made from inside '
+             'callbacks during dispatch, which the copy-and-publish version handles exactly like the unchanged code',
     'C13-c': 'non-reentrant scratch buffer: needs a thread switch between two statements of a pure function; the property quantifies over inputs only',
     'C02-j': 'only shows when the driver reports a link error while the dispatcher is still inside the handler of the protocol-version answer and the '
              'application reconnects before that handler returns: every history with that race is folded into the listed C02 known finding '
